@@ -4,7 +4,7 @@ refresh seeded/<name>/meta.json 'our_checks', and print the markdown table for D
 import json, glob, os, re
 root = "/verif"
 res = {}
-for f in sorted(glob.glob(root + "/work/seed_results/*.json")):
+for f in sorted(glob.glob(root + "/work/seed_final/*.json")):
     base = os.path.basename(f)[:-5]
     name = base.split(".")[0]
     try:
